@@ -70,7 +70,27 @@ def jobs(tier):
         js.append(('roles', i))
     js += leafspell.jobs()
     js += inlinespell.jobs()
+    for a in range(len(STAIR_LINES)):
+        js.append(('stairs', a, (8, 16, 24) if tier == 'quick' else (8, 16, 24, 32, 48)))
     return js
+
+
+# staircases: level i contributes the two lines (a, b) indented by 2*i / 3*i / 4*i columns - nested containers whose next sibling is of
+# the same or of another kind on every level (work that doubles per level shows as a timeout at 24 levels)
+STAIR_LINES = ['- x', '+ y', '* w', '1. z', '2) z', '> q', '', 'p', '# h', '```', '<div>', '| a |']
+
+
+def stair_documents(a, depths):
+    for b in range(len(STAIR_LINES)):
+        for step in (2, 3, 4):
+            for n in depths:
+                for order in ('down', 'down-up'):
+                    la, lb = STAIR_LINES[a], STAIR_LINES[b]
+                    if order == 'down':
+                        ls = [x for i in range(n) for x in (' ' * (step * i) + la, ' ' * (step * i) + lb if lb else '')]
+                    else:
+                        ls = [' ' * (step * i) + la for i in range(n)] + [' ' * (step * i) + lb if lb else '' for i in reversed(range(n))]
+                    yield '\n'.join(ls) + '\n'
 
 
 def n_punct(text):
@@ -266,6 +286,10 @@ def _run_job(r, job):
                 if x is not None:
                     run_text(r, x[0], configs.GROUPS_CORE, space='leafspell')
         r.sample(dict(space='leaf spellings', family=job[1]), 1)
+    elif kind == 'stairs':
+        for text in stair_documents(job[1], job[2]):
+            run_text(r, text, configs.GROUPS_CORE, space='stairs')
+        r.sample(dict(space='stairs', a=STAIR_LINES[job[1]]), 1)
     elif kind == 'pump':
         _, ui, wlen, big = job
         u = spaces.PUMP_U[ui]
